@@ -665,11 +665,26 @@ def mark_exact(items, theta, strict=True):
     if total == 0:
         return None
     thr = Fraction(theta)**2 * total
+    # When every indicator is an integer multiple of one power of two, the
+    # integers add up to less than 2^53 and theta has few enough bits for
+    # total * theta^2 to be exact in either association, then *no* float
+    # operation of any evaluation order rounds: float arithmetic is exact
+    # arithmetic and the marking is decidable even when a prefix sum hits the
+    # threshold exactly ("reaches" means >=).
+    exact_ok = False
+    nz = [Fraction(v) for v, _ in vals if v != 0]
+    if nz:
+        den = max(f.denominator for f in nz)  # a power of two
+        n_tot = sum(int(f * den) for f in nz)
+        th = Fraction(theta)
+        p_bits = th.numerator.bit_length()
+        exact_ok = (n_tot.bit_length() + 2 * p_bits <= 52)
     acc = Fraction(0)
     k_star = None
     for k, (v, _) in enumerate(vals):
         acc += Fraction(v)
-        if strict and abs(acc - thr) <= Fraction(1, 10**9) * thr:
+        if strict and not exact_ok and (
+                abs(acc - thr) <= Fraction(1, 10**9) * thr):
             return None
         if acc >= thr:
             k_star = k
